@@ -37,7 +37,18 @@ func sharesStorage(a, b any) bool {
 	return shared
 }
 
-var c08APIs = [...]string{"oj.Parse", "oj.Load", "sen.Parse", "oj.Marshal", "sen.Bytes", "oj.JSON", "sen.String", "pretty.JSON", "alt.Generify+Simplify", "alt.Decompose", "jp.Expr.Get(shared expr)", "jp.Expr.Set(shared expr)"}
+var c08APIs = [...]string{"oj.Parse", "oj.Load", "sen.Parse", "oj.Marshal", "sen.Bytes", "oj.JSON", "sen.String", "pretty.JSON", "alt.Generify+Simplify", "alt.Decompose", "jp.Expr.Get(shared expr)", "jp.Expr.Set(shared expr)", "oj.Marshal(70 KiB)", "sen.Bytes(70 KiB)"}
+
+// bigString: n bytes of text with one symbolic byte, so that a pooled
+// writer's buffer grows far beyond its initial size.
+func bigString(n int, fill byte) string {
+	b := make([]byte, n)
+	for i := range b {
+		b[i] = fill
+	}
+	b[1] = vx.ByteIn("big", 'a', 'z')
+	return string(b)
+}
 
 // VerifC08_Ownership: the sequential ownership lemma behind C08. Two
 // consecutive calls of a package-level API on private data (the second
@@ -64,6 +75,7 @@ func VerifC08_Ownership() {
 	var b1, b2 []byte
 	var keep1 any
 	var keepB1 []byte
+	large := false
 	pan := vx.Catch(func() {
 		switch api {
 		case 0:
@@ -106,6 +118,16 @@ func VerifC08_Ownership() {
 			r1 = alt.Decompose(v1, &ojg.Options{})
 			keep1 = vref.Copy(r1)
 			r2 = alt.Decompose(v2, &ojg.Options{})
+		case 12:
+			b1, _ = oj.Marshal(bigString(70000, 'p'))
+			keepB1 = append([]byte{}, b1[:8]...)
+			b2, _ = oj.Marshal(bigString(70001, 'q'))
+			large = true
+		case 13:
+			b1 = sen.Bytes(bigString(70000, 'p'))
+			keepB1 = append([]byte{}, b1[:8]...)
+			b2 = sen.Bytes(bigString(70001, 'q'))
+			large = true
 		case 10:
 			r1 = shared.Get(v1)
 			keep1 = vref.Copy(r1)
@@ -122,7 +144,10 @@ func VerifC08_Ownership() {
 	if pan {
 		return
 	}
-	if b1 != nil || b2 != nil {
+	if large {
+		vx.Assert("earlier-buffer-not-overwritten", len(b1) >= 70000 && vx.BytesEq(b1[:8], keepB1))
+		vx.Assert("results-share-no-storage", !vx.Alias(b1, b2))
+	} else if b1 != nil || b2 != nil {
 		vx.Observe("b1len", len(keepB1)) // the text depends on map iteration order
 		vx.Assert("earlier-buffer-not-overwritten", len(b1) == len(keepB1) && vx.BytesEq(b1, keepB1))
 		vx.Assert("results-share-no-storage", !vx.Alias(b1, b2))
